@@ -52,6 +52,24 @@ CHECKS = {
     'C17': ('exploration', 'runtime monitor: cross-dialect differential (inclusion pairs of relaxation subsets) + planted documented breakages judged against the model tree',
             'Parsers are built from the shipped dialects, single options and random subsets (thorough: all 384 buildable subsets); acceptance and tree identity are compared along every inclusion pair; each documented breakage is planted in the model at a random applicable site and must parse to the corrected tree whenever its option is on.',
             'Trusted: breakages are planted in the model so the corrected tree is known by construction.', '5/C17'),
+    'C03': ('exploration', 'runtime monitor: model-vs-JSON record comparison over real JSON-backend compiles (duplicate-rejecting json.loads)',
+            'Mixed-kind modules of all eleven declaration kinds are compiled; key set and per-symbol class / node type / status / access / units / revisions are compared with the declaration each symbol was generated from.',
+            'Trusted: the generator model; json.loads.', '5/C03'),
+    'C04': ('exploration', 'runtime monitor: generated Python compiled and executed against a recording MIB builder; differential JSON vs executed pysnmp objects; load-together on a real pysnmp MibBuilder',
+            'Module sets with cross-module imports of every importable kind are compiled by both back ends; imports between generated modules are resolved against what the exporter really exported; every JSON entry is compared with the exported pysnmp object; every 4th set is loaded from disk by a real MibBuilder.',
+            'Trusted: pysnmp 7.1.29; kind / base-type correspondence tables in the harness. One open known finding (Python keywords as identifiers) is exercised by a stress profile only.', '5/C04'),
+    'C05': ('exploration', 'runtime monitor: literal/default comparison with the generator model in JSON and in executed pysnmp syntax objects (constraint introspection)',
+            'Integers are chosen first and spelled second (decimal, negative, 64-bit, hex, binary); chains of type assignments and textual conventions across modules; every DEFVAL notation; the JSON records and the instantiated pysnmp syntaxes are compared with the model.',
+            'Trusted: pyasn1 constraint attributes (start/stop/values); the model.', '5/C05'),
+    'C06': ('exploration', 'runtime monitor: reference-list comparison (model (module, name) pairs vs JSON and vs executed pysnmp getIndexNames / getObjects / augmentation registration)',
+            'Tables with local / imported / IMPLIED indices, augmenting rows, notification / trap / group / compliance lists mixing local and imported members, hyphenated names on both sides of imports.',
+            'Trusted: the model knows the defining module of every object.', '5/C06'),
+    'C15': ('exploration', 'runtime monitor: text round-trip comparison (source text vs JSON vs text read back from the executed pysnmp module) across character classes, genTexts on/off and both text filters',
+            'Texts drawn from hostile character classes are placed in every text-bearing clause; JSON must hold them exactly / whitespace-normalised, the executed pysnmp module must return them up to whitespace, and gated texts must be absent when not requested.',
+            'Trusted: "up to whitespace" = runs collapsed and ends stripped; texts contain neither double quote nor NUL.', '5/C15'),
+    'C16': ('exploration', 'runtime monitor: paired differential (SMIv1 rendering vs mechanical SMIv2 transliteration of one neutral model) + import-home sweep against a rule-derived table',
+            'Both renderings are compiled for both back ends and compared modulo exactly what a transliteration changes; every (SMIv1 base module, symbol) pair of the conversion table is swept and the module it is imported from checked in JSON and in the executed pysnmp import calls. Typed INDEX entries are an open known finding exercised by a stress case.',
+            'Trusted: the two renderers; the home table derived by rule from the RFCs.', '5/C16'),
 }
 PENDING_REASON = 'check not built yet in this session (work in progress; see DESIGN.md section 5 for the planned monitor)'
 
